@@ -189,6 +189,28 @@ pub fn run_case(tape: &mut Tape, _tier: Tier, _p: &CaseParams) -> CaseOutcome {
     crate::checks::worlds::add_remote_lockfile(tape, &mut w);
     w
   };
+  // a lockfile `remote` entry for a registry file that is imported by its
+  // https url: the checksum of the version manifest still is the one to present
+  if !world.registry.packages.is_empty() && tape.draw(Stream::World, 3) == 2 {
+    let imported: Vec<String> = world
+      .descs
+      .values()
+      .filter(|d| !d.url.starts_with(REGISTRY))
+      .flat_map(|d| d.items.iter().map(|i| i.spec.clone()))
+      .filter(|s| s.starts_with(REGISTRY))
+      .collect();
+    for u in imported {
+      if let Some(Entry::Module { bytes, .. }) = world.remote.get(&u) {
+        let sum = if tape.draw(Stream::World, 2) == 1 {
+          "3".repeat(64)
+        } else {
+          sha256_hex(bytes)
+        };
+        world.lockfile.remote.entry(u).or_insert(sum);
+        out.count("probe.lockfile_remote_entry_for_registry_file", 1);
+      }
+    }
+  }
   // asset imports (ensure_cached path) of checksummed remote urls, and
   // lockfile-seeded redirects onto checksummed targets
   if world.registry.packages.is_empty() {
